@@ -171,6 +171,7 @@ func genCase(r *rand.Rand, w *bufio.Writer, id string) {
 	fmt.Fprintf(w, "case %s\ncfg %d %d %d %s\n", id, totals[r.Intn(len(totals))], peers[r.Intn(len(peers))],
 		retries[r.Intn(len(retries))], subs[r.Intn(len(subs))])
 	n := 3 + r.Intn(22)
+	overlapCase := r.Intn(25) == 0 // a second queue of the same peer is alive (C17 overlap)
 	shut := false
 	hint := func() string {
 		// once Shutdown has been called every `n` is a coin the real scheduler must also throw:
@@ -216,6 +217,16 @@ func genCase(r *rand.Rand, w *bufio.Writer, id string) {
 			fmt.Fprintf(w, "xalloc %d\n", []int{100000, 300000, 600000}[r.Intn(3)])
 		default:
 			fmt.Fprintf(w, "xrel %d\n", []int{100000, 300000, 600000}[r.Intn(3)])
+		}
+		if overlapCase && r.Intn(5) == 0 {
+			switch r.Intn(4) {
+			case 0, 1:
+				fmt.Fprintf(w, "oalloc %d\n", []int{1000, 100000}[r.Intn(2)])
+			case 2:
+				fmt.Fprintf(w, "orel %d\n", []int{1000, 100000}[r.Intn(2)])
+			default:
+				fmt.Fprintf(w, "orelpeer\n")
+			}
 		}
 	}
 	if r.Intn(4) == 0 {
@@ -432,7 +443,8 @@ type txRec struct {
 	attached bool // the build function added its content (stream not closed)
 	bidx     int  // index of the builder (creation order) it was built into
 	links    []string
-	dead     bool // built after the queue goroutine's final drain
+	dead     bool // built after the queue goroutine's final drain (C16: never reported)
+	deadExit bool // built after the queue goroutine has EXITED (C15: reservation nobody releases)
 	allocErr bool // its allocation channel delivered an error
 	state    int  // 0 not built, 1 queued/in flight, 2 resolved (sent/failed), 3 discarded (scrubbed)
 	returned atomic.Bool
@@ -441,6 +453,26 @@ type txRec struct {
 	buildSeq int  // order in which build functions ran (= queued order)
 	shares   bool // links to a block another request's transaction put on the wire (dedup)
 	replaced bool // a later transaction set another subscriber for the same request in the same message
+}
+
+type otherAlloc struct {
+	ch <-chan error
+	n  uint64
+}
+
+func (e *env) pollOther() {
+	rest := e.otherChans[:0]
+	for _, o := range e.otherChans {
+		select {
+		case err := <-o.ch:
+			if err == nil {
+				e.otherHeld += o.n
+			}
+		default:
+			rest = append(rest, o)
+		}
+	}
+	e.otherChans = rest
 }
 
 type waiter struct {
@@ -485,6 +517,11 @@ type env struct {
 	granted     uint64
 
 	sentOrder []int // builder indexes in first-SendMsg order
+	overlap     bool // another queue of the same peer used the allocator
+	wiped       bool // … and its exit wiped this queue's reservations
+	otherHeld   uint64
+	otherSloppy bool
+	otherChans  []otherAlloc
 	nBuilt    int
 	lastSent  int
 	exact     bool
@@ -597,6 +634,9 @@ func (e *env) built(tx *txRec, b *messagequeue.Builder, fn func(*messagequeue.Bu
 	tx.buildSeq = e.nBuilt
 	if e.exited.Load() || (e.at != nil && e.at.kind == "relpeer") {
 		tx.dead = true
+	}
+	if e.exited.Load() {
+		tx.deadExit = true
 	}
 	fn(b)
 	if tx.isReq {
@@ -968,8 +1008,11 @@ func (e *env) observe(res *result, sub int, n note) {
 }
 
 func (e *env) deadClass(base string) string {
+	if e.wiped {
+		return "overlap-release-wipes-successor"
+	}
 	for _, t := range e.txs {
-		if t.dead {
+		if t.deadExit {
 			return "dead-queue-" + base
 		}
 	}
@@ -983,12 +1026,15 @@ func (e *env) checkLedger(res *result) {
 	e.overRelease = nil
 	e.relMu.Unlock()
 	for _, o := range over {
+		if e.otherSloppy {
+			continue // the simulated other queue of this peer released bytes it did not hold
+		}
 		res.fail(e.deadClass("over-release"), "%s (a byte released twice)", o)
 	}
 	var held uint64
 	anyDead := false
 	for _, t := range e.txs {
-		if t.dead {
+		if t.deadExit {
 			anyDead = true
 			continue
 		}
@@ -1002,6 +1048,10 @@ func (e *env) checkLedger(res *result) {
 			held += w.amount // granted, transaction not yet continued
 		}
 	}
+	if e.overlap {
+		e.pollOther()
+		held += e.otherHeld
+	}
 	got := e.alloc.AllocatedForPeer(peer0)
 	for _, t := range e.txs {
 		if t.fnRan && t.attached && t.allocErr {
@@ -1013,13 +1063,17 @@ func (e *env) checkLedger(res *result) {
 			t.sizeSeen = true
 		}
 	}
-	if anyDead || e.exited.Load() {
+	if anyDead || e.exited.Load() || e.wiped || e.otherSloppy {
 		return
 	}
 	idle := e.at == nil && e.blocked() == 0
 	if idle {
 		res.cov = append(res.cov, "state.idle")
-		if got != 0 {
+		if got != e.otherHeld && e.overlap {
+			res.fail("idle-nonzero", "queue idle, but AllocatedForPeer = %d and the other queue of this peer holds %d", got, e.otherHeld)
+			return
+		}
+		if got != 0 && !e.overlap {
 			res.fail("idle-nonzero", "queue idle, nothing queued or in flight, but AllocatedForPeer = %d", got)
 			return
 		}
@@ -1129,11 +1183,11 @@ func (e *env) finalChecks(res *result, finished bool) {
 	// dead-queue leak: memory of transactions built after the final drain
 	var deadBytes uint64
 	for _, t := range e.txs {
-		if t.dead && t.attached {
+		if t.deadExit && t.attached {
 			deadBytes += t.size
 		}
 	}
-	if got := e.alloc.AllocatedForPeer(peer0); got != 0 && e.exited.Load() {
+	if got := e.alloc.AllocatedForPeer(peer0); got != 0 && e.exited.Load() && !e.overlap {
 		if deadBytes > 0 {
 			res.fail("dead-queue-leak", "queue exited; %d bytes stay accounted to the peer for transactions built after its final drain", got)
 		} else {
@@ -1380,6 +1434,46 @@ func runCase(c reg.Case) *result {
 		case "xrel":
 			n, _ := strconv.ParseUint(op[1], 10, 64)
 			_ = e.alloc.ReleaseBlockMemory(peer1, n)
+		case "oalloc":
+			// what another queue of the SAME peer does while a stopping queue and its successor overlap
+			n, _ := strconv.ParseUint(op[1], 10, 64)
+			e.overlap = true
+			e.otherChans = append(e.otherChans, otherAlloc{e.alloc.AllocateBlockMemory(peer0, n), n})
+		case "orel":
+			n, _ := strconv.ParseUint(op[1], 10, 64)
+			e.overlap = true
+			e.pollOther()
+			if n > e.otherHeld {
+				e.otherSloppy = true // the simulated other queue released more than it held
+				n2 := e.otherHeld
+				e.otherHeld = 0
+				_ = n2
+			} else {
+				e.otherHeld -= n
+			}
+			_ = e.alloc.ReleaseBlockMemory(peer0, n)
+		case "orelpeer":
+			e.overlap = true
+			e.pollOther()
+			var own uint64
+			for _, t := range e.txs {
+				if !t.deadExit && t.state == 1 {
+					own += t.size
+				}
+			}
+			for _, w := range e.waiters {
+				w.poll()
+				if w.has && w.val == nil && w.tx != nil && !w.tx.fnRan {
+					own += w.amount
+				}
+			}
+			_ = e.alloc.ReleasePeerMemory(peer0)
+			e.otherHeld = 0
+			e.otherChans = nil
+			if own > 0 && !e.exited.Load() {
+				res.fail("overlap-release-wipes-successor", "another queue of the same peer exited: its ReleasePeerMemory removed the peer's allocator entry while this queue still holds %d reserved unsent bytes (AllocatedForPeer = %d)", own, e.alloc.AllocatedForPeer(peer0))
+				e.wiped = true
+			}
 		case "finish":
 			finished = true
 			for i := 0; i < 64; i++ {
